@@ -9,7 +9,8 @@
    leading blank; enums have at least one variant; no `??`; no comments INSIDE inline types (those
    are layout, not part of the property). `known_commented_enum t` is the open finding
    C14.commented_enum_variant: a custom enum with two or more variants one of which is commented. *)
-From ZV Require Import Common.Base Idl.Idl Idl.IdlParse Idl.IdlExec Idl.IdlRoundTrip Idl.IdlExamples.
+From ZV Require Import Common.Base Idl.Idl Idl.IdlParse Idl.IdlExec Idl.IdlRoundTrip Idl.IdlExamples
+  Idl.IdlNormal Idl.IdlDesc.
 
 (* parse (render t) = t, including every comment and the order of members of each kind *)
 Theorem C14_parse_render : forall t : interface,
@@ -33,6 +34,55 @@ Theorem C14_type_round_trip : forall t : ty,
 Proof. intros t H x Hx. now apply varlink_type_render. Qed.
 Print Assumptions C14_type_round_trip.
 
+(* The same for ALL comment texts without line breaks (`interface_wf_nl`: as interface_wf, but a
+   comment only has to be valid UTF-8 without LF / CR — in particular the texts the derive macros
+   make from doc comments: `/// text` gives " text", a blank `///` gives ""): the parser skips the
+   blanks and tabs that follow `#`, so what comes back is the NORMALISED tree (`normalise`: every
+   comment of the interface, of a member and of a direct field / parameter / variant without its
+   leading blanks and tabs; nothing else changes). C14_parse_render is the special case in which
+   no comment starts with a blank (`C14_normalise_identity`). *)
+Theorem C14_parse_render_normalised : forall t : interface,
+  interface_wf_nl t = true -> known_commented_enum t = false ->
+  parse_interface (render t) = Accept (normalise t).
+Proof. exact parse_render_normalise_wf. Qed.
+Print Assumptions C14_parse_render_normalised.
+
+Theorem C14_normalise_identity : forall t : interface,
+  interface_wf t = true -> interface_wf_nl t = true /\ normalise t = t.
+Proof. exact wf_strict. Qed.
+Print Assumptions C14_normalise_identity.
+
+(* The canonical rendering is one of the legal layouts of C13_complete (of the normalised tree). *)
+Theorem C14_render_is_layout : forall t : interface,
+  interface_wf_nl t = true -> known_commented_enum t = false ->
+  IdlComplete.Linterface (iname t) (ncs (icomments t)) (List.map nmember (members_of t)) (render t).
+Proof. intros t Hw Hk. apply Linterface_render. now apply wf_nl_iface. Qed.
+Print Assumptions C14_render_is_layout.
+
+(* JSON strings: the reader (serde_json's parse_str / parse_escape: raw bytes >= 0x20 are copied, a
+   backslash introduces one of the escapes quote, backslash, slash, b, f, n, r, t or uXXXX with
+   surrogate pairs, the result is checked as UTF-8) inverts the printer (the reference encoding
+   that json_ser.rs is proved to emit, C03) on EVERY valid UTF-8 string. *)
+Theorem C14_json_string_roundtrip : forall s : list byte,
+  utf8_valid s = true -> read_string (print_string s) = Some s.
+Proof. exact read_print. Qed.
+Print Assumptions C14_json_string_roundtrip.
+
+(* The GetInterfaceDescription exchange: the service writes the Display string as a JSON string,
+   the client reads that JSON string and parses it lazily. What the client parses is the
+   (normalised) description the service had; the string in between is exactly the rendering. *)
+Theorem C14_description_roundtrip : forall t : interface,
+  interface_wf_nl t = true -> known_commented_enum t = false ->
+  read_string (print_string (render t)) = Some (render t)
+  /\ description_roundtrip t = Accept (normalise t).
+Proof. exact description_roundtrip_normalise. Qed.
+Print Assumptions C14_description_roundtrip.
+
+Theorem C14_description_roundtrip_identity : forall t : interface,
+  interface_wf t = true -> known_commented_enum t = false -> description_roundtrip t = Accept t.
+Proof. exact description_roundtrip_id. Qed.
+Print Assumptions C14_description_roundtrip_identity.
+
 (* The open finding: inside the hypotheses but in the known class the statement is false — the
    rendering of custom_enum.rs's own test value is rejected by the parser (replayed on every run
    against the implementation: corpus/c14.jsonl). *)
@@ -47,4 +97,15 @@ Print Assumptions C14_commented_enum_refuted.
 Example C14_nonvacuous :
   interface_wf sample_tree = true /\ known_commented_enum sample_tree = false
   /\ parse_interface (render sample_tree) = Accept sample_tree.
+Proof. repeat split; vm_compute; reflexivity. Qed.
+
+(* Non-vacuity of the normalised form: derive-shaped comments (leading blank, empty, blank-only)
+   satisfy the weaker hypotheses, are changed by normalise, and round-trip to the normal form,
+   also through the JSON string. *)
+Example C14_normalised_nonvacuous :
+  interface_wf_nl derive_tree = true /\ interface_wf derive_tree = false
+  /\ known_commented_enum derive_tree = false
+  /\ interface_beq (normalise derive_tree) derive_tree = false
+  /\ parse_interface (render derive_tree) = Accept (normalise derive_tree)
+  /\ description_roundtrip derive_tree = Accept (normalise derive_tree).
 Proof. repeat split; vm_compute; reflexivity. Qed.
